@@ -169,9 +169,11 @@ def _stratify_circuit(
             for qubit in op.qubits:
                 qubit_time_index[qubit] = time_index
             for key in protocols.measurement_key_objs(op):
-                measurement_time_index[key] = time_index
+                measurement_time_index[key] = max(time_index, measurement_time_index.get(key, -1))
             for key in protocols.control_keys(op):
-                control_time_index[key] = time_index
+                # Operations controlled by the same key are not ordered among themselves, so a
+                # later one can land in an earlier moment: keep the latest time index.
+                control_time_index[key] = max(time_index, control_time_index.get(key, -1))
 
     return circuits.Circuit(circuits.Moment(moment) for moment in new_moments if moment)
 
